@@ -77,7 +77,12 @@ struct Ev {
 // splitmix64: deterministic driver randomness from VERIF_SEED
 struct Rng {
   uint64_t x;
-  explicit Rng(uint64_t seed) : x(seed * 0x9E3779B97F4A7C15ULL + 0x1234567ULL) {}
+  // the seed is scrambled first: consecutive seeds must not give shifted copies of one stream
+  explicit Rng(uint64_t seed) : x(0) {
+    uint64_t z = seed + 0x632BE59BD9B4E019ULL;
+    z = (z ^ (z >> 30)) * 0xBF58476D1CE4E5B9ULL; z = (z ^ (z >> 27)) * 0x94D049BB133111EBULL; z ^= z >> 31;
+    x = z * 0xD1342543DE82EF95ULL + 0x1234567ULL;
+  }
   uint64_t next() { uint64_t z = (x += 0x9E3779B97F4A7C15ULL); z = (z ^ (z >> 30)) * 0xBF58476D1CE4E5B9ULL; z = (z ^ (z >> 27)) * 0x94D049BB133111EBULL; return z ^ (z >> 31); }
   uint64_t below(uint64_t n) { return n ? next() % n : 0; }
   long range(long lo, long hi) { return lo + (long)below((uint64_t)(hi - lo + 1)); }
